@@ -284,6 +284,13 @@ class AORun(object):
           out = self.fabric.is_alive()
         elif kind == 'sleep':
           seams._time_facade.sleep(op[1])
+        elif kind == 'barrier':
+          # all clients that use the barrier leave it at the same instant; the scheduler
+          # then decides who goes first
+          self.barrier_arrived = getattr(self, 'barrier_arrived', 0) + 1
+          need = op[1]
+          if self.barrier_arrived < need:
+            sim.block(lambda: self.barrier_arrived >= need, None, 'barrier')
         elif kind == 'await_idle':
           if not self.all_idle():
             sim.block(self.all_idle, None, 'await_idle')
